@@ -14,7 +14,7 @@ open UscxmlVerif.Model.DelayQueue
 /-- what must hold of an entry, given where the two actors are -/
 structure EntryOk (s : DQ) (i : Nat) (e : Entry) : Prop where
   timerOwned : e.loc = .timerOwned → s.timer = .owning i ∨ s.timer = .done i
-  cancOwned : e.loc = .cancOwned → s.canc = .detached i
+  cancOwned : e.loc = .cancOwned → i ∈ s.canc
   armed : e.armed = true → e.loc = .inMap ∨ e.loc = .cancOwned
   once : e.deliveries ≤ 1
   delivered : e.deliveries = 1 → (e.loc = .timerOwned ∧ s.timer = .done i) ∨ e.loc = .freed
@@ -30,7 +30,7 @@ structure Inv (s : DQ) : Prop where
   entered : ∀ i, s.timer = .entered i → ∃ e, s.get i = some e ∧ (e.loc = .inMap ∨ e.loc = .cancOwned) ∧ e.armed = false
   owning : ∀ i, s.timer = .owning i → ∃ e, s.get i = some e ∧ e.loc = .timerOwned ∧ e.deliveries = 0
   done : ∀ i, s.timer = .done i → ∃ e, s.get i = some e ∧ e.loc = .timerOwned ∧ e.deliveries = 1
-  detached : ∀ i, s.canc = .detached i → ∃ e, s.get i = some e ∧ e.loc = .cancOwned
+  detached : ∀ i, i ∈ s.canc → ∃ e, s.get i = some e ∧ e.loc = .cancOwned
   fired : ∀ i e, s.timer.current = some i → s.get i = some e → e.due ≤ s.now
 
 theorem inv_init : Inv {} := by
@@ -39,7 +39,7 @@ theorem inv_init : Inv {} := by
   · intro i h; cases h
   · intro i h; cases h
   · intro i h; cases h
-  · intro i h; cases h
+  · intro i h; simp at h
   · intro i e h; cases h
 
 theorem get_put_same (s : DQ) (i : Nat) (e e' : Entry) (h : s.get i = some e) : (s.put i e').get i = some e' := by
@@ -62,7 +62,7 @@ theorem current_ne_of {t : Timer} {j : Nat} (h : t.current ≠ some j) :
 only with respect to other entries -/
 theorem entryOk_other {s s' : DQ} {j : Nat} {e : Entry} (h : EntryOk s j e)
     (ht : s'.timer = s.timer ∨ (s.timer.current ≠ some j ∧ s'.timer.current ≠ some j))
-    (hc : s'.canc = s.canc ∨ (s.canc ≠ .detached j ∧ s'.canc ≠ .detached j))
+    (hc : j ∈ s.canc → j ∈ s'.canc)
     (hn : s.now ≤ s'.now) : EntryOk s' j e := by
   have tO : e.loc = .timerOwned → s'.timer = .owning j ∨ s'.timer = .done j := by
     intro hl
@@ -73,11 +73,9 @@ theorem entryOk_other {s s' : DQ} {j : Nat} {e : Entry} (h : EntryOk s j e)
       rcases this with t | t
       · exact absurd t c.2.1
       · exact absurd t c.2.2
-  have cO : e.loc = .cancOwned → s'.canc = .detached j := by
+  have cO : e.loc = .cancOwned → j ∈ s'.canc := by
     intro hl
-    rcases hc with hc | ⟨h1, _⟩
-    · rw [hc]; exact h.cancOwned hl
-    · exact absurd (h.cancOwned hl) h1
+    exact hc (h.cancOwned hl)
   refine ⟨tO, cO, h.armed, h.once, ?_, ?_, ?_, h.exclusive, h.mapNotCancelled⟩
   · intro hd
     rcases h.delivered hd with ⟨hl, hdone⟩ | hf
@@ -96,7 +94,7 @@ theorem entryOk_other {s s' : DQ} {j : Nat} {e : Entry} (h : EntryOk s j e)
 theorem inv_tick (s : DQ) (hi : Inv s) : Inv { s with now := s.now + 1 } := by
   refine ⟨hi.noFault, ?_, hi.entered, hi.owning, hi.done, hi.detached, ?_⟩
   · intro i e h
-    exact entryOk_other (s := s) (hi.entries i e h) (Or.inl rfl) (Or.inl rfl) (Nat.le_succ _)
+    exact entryOk_other (s := s) (hi.entries i e h) (Or.inl rfl) id (Nat.le_succ _)
   · intro i e hc hg
     exact Nat.le_trans (hi.fired i e hc hg) (Nat.le_succ _)
 
@@ -105,15 +103,15 @@ theorem timer_cases (t : Timer) (i : Nat) (h : t.current = none ∨ t.current = 
   cases t <;> simp [Timer.current] at h ⊢ <;> exact h
 
 /-- the general step: entry `i` is rewritten, and the actors move only with respect to `i` -/
-theorem inv_update (s : DQ) (hi : Inv s) (i : Nat) (e e' : Entry) (t' : Timer) (c' : Canc)
+theorem inv_update (s : DQ) (hi : Inv s) (i : Nat) (e e' : Entry) (t' : Timer) (c' : List Nat)
     (hg : s.get i = some e)
     (ht : t' = s.timer ∨ ((s.timer.current = none ∨ s.timer.current = some i) ∧ (t'.current = none ∨ t'.current = some i)))
-    (hc : c' = s.canc ∨ ((s.canc = .idle ∨ s.canc = .detached i) ∧ (c' = .idle ∨ c' = .detached i)))
+    (hc : ∀ j, i ≠ j → (j ∈ c' ↔ j ∈ s.canc))
     (hnew : EntryOk { (s.put i e') with timer := t', canc := c' } i e')
     (pe : t' = .entered i → (e'.loc = .inMap ∨ e'.loc = .cancOwned) ∧ e'.armed = false)
     (po : t' = .owning i → e'.loc = .timerOwned ∧ e'.deliveries = 0)
     (pd : t' = .done i → e'.loc = .timerOwned ∧ e'.deliveries = 1)
-    (pc : c' = .detached i → e'.loc = .cancOwned)
+    (pc : i ∈ c' → e'.loc = .cancOwned)
     (pf : t'.current = some i → e'.due ≤ s.now) :
     Inv { (s.put i e') with timer := t', canc := c' } := by
   have gi : ({ (s.put i e') with timer := t', canc := c' } : DQ).get i = some e' := get_put_same s i e e' hg
@@ -122,13 +120,6 @@ theorem inv_update (s : DQ) (hi : Inv s) (i : Nat) (e e' : Entry) (t' : Timer) (
   have tother : ∀ j, i ≠ j → t' = s.timer ∨ (s.timer.current ≠ some j ∧ t'.current ≠ some j) := by
     intro j hne
     rcases ht with h | ⟨h1, h2⟩
-    · exact Or.inl h
-    · refine Or.inr ⟨?_, ?_⟩
-      · rcases h1 with h | h <;> rw [h] <;> simp [hne]
-      · rcases h2 with h | h <;> rw [h] <;> simp [hne]
-  have cother : ∀ j, i ≠ j → c' = s.canc ∨ (s.canc ≠ .detached j ∧ c' ≠ .detached j) := by
-    intro j hne
-    rcases hc with h | ⟨h1, h2⟩
     · exact Or.inl h
     · refine Or.inr ⟨?_, ?_⟩
       · rcases h1 with h | h <;> rw [h] <;> simp [hne]
@@ -151,7 +142,7 @@ theorem inv_update (s : DQ) (hi : Inv s) (i : Nat) (e e' : Entry) (t' : Timer) (
       rw [gi] at hj; cases hj
       exact hnew
     · rw [gj j hij] at hj
-      exact entryOk_other (s := s) (hi.entries j ej hj) (tother j hij) (cother j hij) (Nat.le_refl _)
+      exact entryOk_other (s := s) (hi.entries j ej hj) (tother j hij) (fun h => (hc j hij).2 h) (Nat.le_refl _)
   · intro j hj
     by_cases hij : i = j
     · subst hij; exact ⟨e', gi, pe hj⟩
@@ -179,11 +170,9 @@ theorem inv_update (s : DQ) (hi : Inv s) (i : Nat) (e e' : Entry) (t' : Timer) (
   · intro j hj
     by_cases hij : i = j
     · subst hij; exact ⟨e', gi, pc hj⟩
-    · have hj' : c' = .detached j := hj
-      rcases cother j hij with h | ⟨_, h⟩
-      · obtain ⟨ej, h1, h2⟩ := hi.detached j (by rw [← h]; exact hj')
-        exact ⟨ej, by rw [gj j hij]; exact h1, h2⟩
-      · exact absurd hj' h
+    · have hj' : j ∈ c' := hj
+      obtain ⟨ej, h1, h2⟩ := hi.detached j ((hc j hij).1 hj')
+      exact ⟨ej, by rw [gj j hij]; exact h1, h2⟩
 
 theorem set_same {α : Type} (l : List α) (i : Nat) (a : α) (h : l[i]? = some a) : l.set i a = l := by
   apply List.ext_getElem?
@@ -237,7 +226,7 @@ theorem inv_enqueue (s : DQ) (hi : Inv s) (key due : Nat) :
       omega
   · intro j e h
     rcases gold j e h with h | ⟨hj, he⟩
-    · exact entryOk_other (s := s) (hi.entries j e h) (Or.inl rfl) (Or.inl rfl) (Nat.le_refl _)
+    · exact entryOk_other (s := s) (hi.entries j e h) (Or.inl rfl) id (Nat.le_refl _)
     · subst he
       refine ⟨(by intro h; cases h), (by intro h; cases h), fun _ => Or.inl rfl, by simp, (by intro h; cases h), ?_,
         (by intro h; cases h), (by intro h; cases h), fun _ => ⟨rfl, rfl⟩⟩
@@ -275,48 +264,48 @@ theorem inv_step (s s' : DQ) (a : Act) (hi : Inv s) (h : step s a = some s') : I
   | detach key =>
     simp only [step] at h
     split at h
-    · rename_i hc
-      split at h
-      · rename_i i hl
-        obtain ⟨e, hg, hloc, _⟩ := lookup_inMap hl
-        rw [hg] at h
-        simp only [Option.some.injEq] at h; subst h
-        have ok := hi.entries i e hg
-        have hm := ok.mapNotCancelled hloc
-        refine inv_update s hi i e _ s.timer (.detached i) hg (Or.inl rfl)
-          (Or.inr ⟨Or.inl hc, Or.inr rfl⟩) ?_ ?_ ?_ ?_ (fun _ => rfl) (fun hcur => hi.fired i e hcur hg)
-        · refine ⟨(by intro h; cases h), fun _ => rfl, fun _ => Or.inr rfl, by simp [hm.2], by simp [hm.2], ?_,
-            by simp [hm.2], fun _ => ⟨hm.2, Or.inl rfl⟩, (by intro h; cases h)⟩
-          intro _ hd
-          obtain ⟨e2, h1, h2, _⟩ := hi.done i hd
-          rw [hg] at h1; cases h1; rw [hloc] at h2; cases h2
-        · intro ht
-          obtain ⟨e2, h1, h2, h3⟩ := hi.entered i ht
-          rw [hg] at h1; cases h1
-          exact ⟨Or.inr rfl, h3⟩
-        · intro ht
-          obtain ⟨e2, h1, h2, _⟩ := hi.owning i ht
-          rw [hg] at h1; cases h1; rw [hloc] at h2; cases h2
-        · intro ht
-          obtain ⟨e2, h1, h2, _⟩ := hi.done i ht
-          rw [hg] at h1; cases h1; rw [hloc] at h2; cases h2
-      · simp only [Option.some.injEq] at h; subst h; exact hi
-    · cases h
-  | dispose =>
+    · rename_i i hl
+      obtain ⟨e, hg, hloc, _⟩ := lookup_inMap hl
+      rw [hg] at h
+      simp only [Option.some.injEq] at h; subst h
+      have ok := hi.entries i e hg
+      have hm := ok.mapNotCancelled hloc
+      refine inv_update s hi i e _ s.timer (i :: s.canc) hg (Or.inl rfl)
+        (fun j hij => by simp [Ne.symm hij]) ?_ ?_ ?_ ?_ (fun _ => rfl) (fun hcur => hi.fired i e hcur hg)
+      · refine ⟨(by intro h; cases h), fun _ => by simp, fun _ => Or.inr rfl, by simp [hm.2], by simp [hm.2], ?_,
+          by simp [hm.2], fun _ => ⟨hm.2, Or.inl rfl⟩, (by intro h; cases h)⟩
+        intro _ hd
+        obtain ⟨e2, h1, h2, _⟩ := hi.done i hd
+        rw [hg] at h1; cases h1; rw [hloc] at h2; cases h2
+      · intro ht
+        obtain ⟨e2, h1, h2, h3⟩ := hi.entered i ht
+        rw [hg] at h1; cases h1
+        exact ⟨Or.inr rfl, h3⟩
+      · intro ht
+        obtain ⟨e2, h1, h2, _⟩ := hi.owning i ht
+        rw [hg] at h1; cases h1; rw [hloc] at h2; cases h2
+      · intro ht
+        obtain ⟨e2, h1, h2, _⟩ := hi.done i ht
+        rw [hg] at h1; cases h1; rw [hloc] at h2; cases h2
+    · simp only [Option.some.injEq] at h; subst h; exact hi
+  | dispose i =>
     simp only [step] at h
     split at h
-    · rename_i i hc
+    · cases h
+    · rename_i hmem
       split at h
       · cases h
       · rename_i hcur
-        obtain ⟨e, hg, hloc⟩ := hi.detached i hc
+        have hmem' : i ∈ s.canc := by simpa using hmem
+        obtain ⟨e, hg, hloc⟩ := hi.detached i hmem'
         rw [hg] at h
         simp only [hloc, beq_self_eq_true, if_true, Option.some.injEq] at h; subst h
         have ok := hi.entries i e hg
         have hcur' : s.timer.current ≠ some i := by simpa using hcur
         have tn := current_ne_of hcur'
-        refine inv_update s hi i e _ s.timer .idle hg (Or.inl rfl)
-          (Or.inr ⟨Or.inr hc, Or.inl rfl⟩) ?_ ?_ ?_ ?_ (by intro h; cases h) (fun hcur2 => absurd hcur2 hcur')
+        refine inv_update s hi i e _ s.timer (s.canc.filter (· != i)) hg (Or.inl rfl)
+          (fun j hij => by simp [List.mem_filter, Ne.symm hij]) ?_ ?_ ?_ ?_ (by intro h; simp [List.mem_filter] at h)
+          (fun hcur2 => absurd hcur2 hcur')
         · have hd0 : e.deliveries = 0 := by
             have := ok.once
             rcases Nat.lt_or_ge e.deliveries 1 with h | h
@@ -328,7 +317,6 @@ theorem inv_step (s s' : DQ) (a : Act) (hi : Inv s) (h : step s a = some s') : I
         · intro ht; exact absurd ht tn.1
         · intro ht; exact absurd ht tn.2.1
         · intro ht; exact absurd ht tn.2.2
-    · cases h
   | fire i =>
     simp only [step] at h
     split at h
@@ -345,7 +333,7 @@ theorem inv_step (s s' : DQ) (a : Act) (hi : Inv s) (h : step s a = some s') : I
           · have h1 : e.deliveries = 1 := by have := ok.once; omega
             rcases ok.delivered h1 with ⟨hl, _⟩ | hl <;> rcases hloc with h2 | h2 <;> rw [h2] at hl <;> cases hl
         refine inv_update s hi i e _ (.entered i) s.canc hg
-          (Or.inr ⟨Or.inl (by rw [ht]; rfl), Or.inr rfl⟩) (Or.inl rfl) ?_ (fun _ => ⟨hloc, rfl⟩)
+          (Or.inr ⟨Or.inl (by rw [ht]; rfl), Or.inr rfl⟩) (fun _ _ => Iff.rfl) ?_ (fun _ => ⟨hloc, rfl⟩)
           (by intro h; cases h) (by intro h; cases h) ?_ (fun _ => hcond.2)
         · refine ⟨?_, ok.cancOwned, (by intro h; cases h), ok.once, by simp [hd0], (by intro _ h; cases h),
             by simp [hd0], ok.exclusive, ok.mapNotCancelled⟩
@@ -366,7 +354,7 @@ theorem inv_step (s s' : DQ) (a : Act) (hi : Inv s) (h : step s a = some s') : I
       · simp only [hloc, Option.some.injEq] at h; subst h
         have hm := ok.mapNotCancelled hloc
         refine inv_update s hi i e _ (.owning i) s.canc hg
-          (Or.inr ⟨Or.inr (by rw [ht]; rfl), Or.inr rfl⟩) (Or.inl rfl) ?_ (by intro h; cases h)
+          (Or.inr ⟨Or.inr (by rw [ht]; rfl), Or.inr rfl⟩) (fun _ _ => Iff.rfl) ?_ (by intro h; cases h)
           (fun _ => ⟨rfl, hm.2⟩) (by intro h; cases h) ?_ (fun _ => hi.fired i e (by rw [ht]; rfl) hg)
         · refine ⟨fun _ => Or.inl rfl, (by intro h; cases h), by simp [harm], ok.once, by simp [hm.2],
             (by intro _ h; cases h), by simp [hm.2], by simp [hm.1], (by intro h; cases h)⟩
@@ -375,7 +363,7 @@ theorem inv_step (s s' : DQ) (a : Act) (hi : Inv s) (h : step s a = some s') : I
           rw [hg] at h1; cases h1; rw [hloc] at h2; cases h2
       · simp only [hloc, Option.some.injEq] at h; subst h
         have := inv_update s hi i e e .idle s.canc hg
-          (Or.inr ⟨Or.inr (by rw [ht]; rfl), Or.inl rfl⟩) (Or.inl rfl) ?_ (by intro h; cases h)
+          (Or.inr ⟨Or.inr (by rw [ht]; rfl), Or.inl rfl⟩) (fun _ _ => Iff.rfl) ?_ (by intro h; cases h)
           (by intro h; cases h) (by intro h; cases h) (fun _ => hloc) (by intro h; cases h)
         · have hput : s.put i e = s := by
             simp only [DQ.put, DQ.get] at hg ⊢
@@ -408,7 +396,7 @@ theorem inv_step (s s' : DQ) (a : Act) (hi : Inv s) (h : step s a = some s') : I
         · rfl
         · rcases ok.armed ha with h | h <;> rw [hloc] at h <;> cases h
       refine inv_update s hi i e _ (.done i) s.canc hg
-        (Or.inr ⟨Or.inr (by rw [ht]; rfl), Or.inr rfl⟩) (Or.inl rfl) ?_ (by intro h; cases h)
+        (Or.inr ⟨Or.inr (by rw [ht]; rfl), Or.inr rfl⟩) (fun _ _ => Iff.rfl) ?_ (by intro h; cases h)
         (by intro h; cases h) (fun _ => ⟨hloc, by simp [hd0]⟩) ?_ (fun _ => hi.fired i e (by rw [ht]; rfl) hg)
       · refine ⟨fun _ => Or.inr rfl, (by intro h; rw [hloc] at h; cases h), by simp [harm], by simp [hd0],
           fun _ => Or.inl ⟨hloc, rfl⟩, by simp [hd0], ?_, by simp [hnc], (by intro h; rw [hloc] at h; cases h)⟩
@@ -427,7 +415,7 @@ theorem inv_step (s s' : DQ) (a : Act) (hi : Inv s) (h : step s a = some s') : I
       simp only [hloc, beq_self_eq_true, if_true, Option.some.injEq] at h; subst h
       have ok := hi.entries i e hg
       refine inv_update s hi i e _ .idle s.canc hg
-        (Or.inr ⟨Or.inr (by rw [ht]; rfl), Or.inl rfl⟩) (Or.inl rfl) ?_ (by intro h; cases h)
+        (Or.inr ⟨Or.inr (by rw [ht]; rfl), Or.inl rfl⟩) (fun _ _ => Iff.rfl) ?_ (by intro h; cases h)
         (by intro h; cases h) (by intro h; cases h) ?_ (by intro h; cases h)
       rotate_left
       · intro hc
@@ -484,19 +472,17 @@ theorem step_mono (s s' : DQ) (a : Act) (h : step s a = some s') (i : Nat) (e : 
   | detach key =>
     simp only [step] at h
     split at h
-    · split at h
-      · rename_i j hl
-        obtain ⟨ej, hj, _, _⟩ := lookup_inMap hl
-        rw [hj] at h
-        simp only [Option.some.injEq] at h; subst h
-        exact put_mono s i j e ej _ hj ⟨rfl, rfl, fun _ => rfl, Nat.le_refl _⟩ hg
-      · simp only [Option.some.injEq] at h; subst h; exact ⟨e, hg, Mono.refl e⟩
-    · cases h
-  | dispose =>
+    · rename_i j hl
+      obtain ⟨ej, hj, _, _⟩ := lookup_inMap hl
+      rw [hj] at h
+      simp only [Option.some.injEq] at h; subst h
+      exact put_mono s i j e ej _ hj ⟨rfl, rfl, fun _ => rfl, Nat.le_refl _⟩ hg
+    · simp only [Option.some.injEq] at h; subst h; exact ⟨e, hg, Mono.refl e⟩
+  | dispose j =>
     simp only [step] at h
     split at h
-    · rename_i j _
-      split at h
+    · cases h
+    · split at h
       · cases h
       · split at h
         · rename_i ej hj
@@ -505,7 +491,6 @@ theorem step_mono (s s' : DQ) (a : Act) (h : step s a = some s') (i : Nat) (e : 
             exact put_mono s i j e ej _ hj ⟨rfl, rfl, id, Nat.le_refl _⟩ hg
           · simp only [Option.some.injEq] at h; subst h; exact ⟨e, hg, Mono.refl e⟩
         · simp only [Option.some.injEq] at h; subst h; exact ⟨e, hg, Mono.refl e⟩
-    · cases h
   | fire j =>
     simp only [step] at h
     split at h
@@ -605,8 +590,8 @@ theorem delivered_stays_once (as bs : List Act) (s s' : DQ) (h : run {} as = som
 the protocol is enabled (the timer thread can always finish its callback; a canceller waits in
 `event_del` only while the callback of that very event runs) -/
 theorem no_deadlock (as : List Act) (s : DQ) (h : run {} as = some s)
-    (busy : s.timer ≠ .idle ∨ s.canc ≠ .idle) :
-    (step s .check).isSome ∨ (step s .deliver).isSome ∨ (step s .free).isSome ∨ (step s .dispose).isSome := by
+    (busy : s.timer ≠ .idle ∨ s.canc ≠ []) :
+    (step s .check).isSome ∨ (step s .deliver).isSome ∨ (step s .free).isSome ∨ ∃ i ∈ s.canc, (step s (.dispose i)).isSome := by
   have hi := inv_run {} s as inv_init h
   cases ht : s.timer with
   | entered i =>
@@ -626,10 +611,12 @@ theorem no_deadlock (as : List Act) (s : DQ) (h : run {} as = some s)
     rcases busy with b | b
     · exact absurd ht b
     · cases hc : s.canc with
-      | idle => exact absurd hc b
-      | detached i =>
-        obtain ⟨e, hg, hl⟩ := hi.detached i hc
+      | nil => exact absurd hc b
+      | cons i rest =>
+        have hm : i ∈ s.canc := by rw [hc]; simp
+        obtain ⟨e, hg, hl⟩ := hi.detached i hm
         right; right; right
+        refine ⟨i, by simp, ?_⟩
         simp [step, hc, ht, Timer.current, hg, hl]
 
 /-- the protocol before the repair dead-locks: timer fires, canceller takes the mutex and waits in
@@ -642,11 +629,11 @@ theorem old_protocol_deadlocks_after_delivery :
     ∃ s, Old.run {} [.fire, .lock1, .deliver, .cancelBegin] = some s ∧ Old.stuck s = true := ⟨_, rfl, by decide⟩
 
 /-! non-vacuity: a race in which the cancel wins, and one in which the delivery wins -/
-example : (run {} [.enqueue 7 1, .tick, .fire 0, .detach 7, .check, .dispose]).map (fun s => (s.fault, s.nodes.map (·.deliveries))) =
+example : (run {} [.enqueue 7 1, .tick, .fire 0, .detach 7, .check, .dispose 0]).map (fun s => (s.fault, s.nodes.map (·.deliveries))) =
     some (false, [0]) := by decide
 example : (run {} [.enqueue 7 1, .tick, .fire 0, .check, .detach 7, .deliver, .free]).map (fun s => (s.fault, s.nodes.map (·.deliveries))) =
     some (false, [1]) := by decide
 /-- the canceller really waits: `dispose` is not enabled while the callback of its event runs -/
-example : run {} [.enqueue 7 1, .tick, .fire 0, .detach 7, .dispose] = none := by decide
+example : run {} [.enqueue 7 1, .tick, .fire 0, .detach 7, .dispose 0] = none := by decide
 
 end UscxmlVerif.Properties.C09
